@@ -18,6 +18,7 @@
 #include <cstdlib>
 #include <cstring>
 #include <cerrno>
+#include <ctime>
 #include <string>
 #include <vector>
 #include <map>
@@ -26,6 +27,8 @@
 #include <algorithm>
 #include <unistd.h>
 #include <fcntl.h>
+#include <signal.h>
+#include <sys/prctl.h>
 
 namespace vf {
 
@@ -122,6 +125,9 @@ struct Runtime {
     std::map<std::string, uint64_t> section_cases;
     std::map<std::string, std::vector<std::string>> samples;   // per section
     std::set<uint64_t> sigs;
+    std::set<uint64_t> sigs_sent;
+    std::map<std::string, size_t> samples_sent;
+    time_t last_flush = 0;
     uint64_t evaluations = 0;
     uint64_t violations = 0;
     int scale_pct = 100;     // VERIF_SCALE: scales section sizes (mutant triage)
@@ -189,9 +195,37 @@ inline void write_progress(uint64_t g) {
     if (rt().progress_fd >= 0) { ssize_t r = pwrite(rt().progress_fd, &g, 8, 0); (void) r; }
 }
 
+// Writes the counters accumulated since the previous flush as one record and clears them; the
+// driver sums all "part"/"end" records, so what ran before a sanitizer abort is still counted.
+inline void flush_part(const char* type, const char* sigp) {
+    Runtime& r = rt();
+    std::string cs = "{"; bool f = true;
+    for (auto& kv : r.counters) { if (!f) cs += ","; f = false; cs += jstr(kv.first) + ":" + std::to_string(kv.second); }
+    cs += "}";
+    std::string ss = "{"; f = true;
+    for (auto& kv : r.section_cases) { if (!f) ss += ","; f = false; ss += jstr(kv.first) + ":" + std::to_string(kv.second); }
+    ss += "}";
+    std::string sm = "{"; f = true;
+    for (auto& kv : r.samples) { if (kv.second.size() <= r.samples_sent[kv.first]) continue; if (!f) sm += ","; f = false;
+        std::vector<std::string> fresh(kv.second.begin() + (long) r.samples_sent[kv.first], kv.second.end()); r.samples_sent[kv.first] = kv.second.size(); sm += jstr(kv.first) + ":" + jarr(fresh); }
+    sm += "}";
+    fprintf(r.out, "{\"t\":\"%s\",\"evaluations\":%llu,\"violations\":%llu,\"nontrivial\":%llu,\"counters\":%s,\"sections\":%s,\"samples\":%s}\n",
+            type, (unsigned long long) r.evaluations, (unsigned long long) r.violations, (unsigned long long) r.sigs.size(), cs.c_str(), ss.c_str(), sm.c_str());
+    fflush(r.out);
+    if (sigp) {
+        FILE* sf = fopen(sigp, "ab");
+        if (sf) { for (uint64_t h : r.sigs) if (!r.sigs_sent.count(h)) { fwrite(&h, 8, 1, sf); r.sigs_sent.insert(h); } fclose(sf); }
+    }
+    r.evaluations = 0; r.violations = 0; r.counters.clear(); r.section_cases.clear();
+    r.last_flush = time(nullptr);
+}
+
 // usage: harness --seed S --tier quick|thorough --first F --step P [--end E] --out f --sig f --progress f [--verbose] [--only G]
 inline int harness_main(int argc, char** argv, const std::vector<Section>& sections, void (*init)() = nullptr) {
     Runtime& r = rt();
+    // never outlive the driver (a killed vcheck.py must not leave spinning harness processes behind)
+    prctl(PR_SET_PDEATHSIG, SIGKILL);
+    if (getppid() == 1) _exit(2);
     uint64_t first = 0, step = 1, end = UINT64_MAX;
     long long only = -1;
     const char* outp = nullptr; const char* sigp = nullptr; const char* progp = nullptr;
@@ -236,25 +270,10 @@ inline int harness_main(int argc, char** argv, const std::vector<Section>& secti
         sec->fn(c);
         r.evaluations++;
         r.section_cases[sec->name]++;
+        if (r.evaluations >= 256 || (r.evaluations >= 8 && time(nullptr) - r.last_flush >= 3)) flush_part("part", sigp);   // survive a later abort
     }
     write_progress(UINT64_MAX);
-    // summary
-    std::string cs = "{"; bool f = true;
-    for (auto& kv : r.counters) { if (!f) cs += ","; f = false; cs += jstr(kv.first) + ":" + std::to_string(kv.second); }
-    cs += "}";
-    std::string ss = "{"; f = true;
-    for (auto& kv : r.section_cases) { if (!f) ss += ","; f = false; ss += jstr(kv.first) + ":" + std::to_string(kv.second); }
-    ss += "}";
-    std::string sm = "{"; f = true;
-    for (auto& kv : r.samples) { if (!f) sm += ","; f = false; sm += jstr(kv.first) + ":" + jarr(kv.second); }
-    sm += "}";
-    fprintf(r.out, "{\"t\":\"end\",\"evaluations\":%llu,\"violations\":%llu,\"nontrivial\":%llu,\"counters\":%s,\"sections\":%s,\"samples\":%s}\n",
-            (unsigned long long) r.evaluations, (unsigned long long) r.violations, (unsigned long long) r.sigs.size(), cs.c_str(), ss.c_str(), sm.c_str());
-    fflush(r.out);
-    if (sigp) {
-        FILE* sf = fopen(sigp, "ab");
-        if (sf) { for (uint64_t h : r.sigs) fwrite(&h, 8, 1, sf); fclose(sf); }
-    }
+    flush_part("end", sigp);
     fflush(stdout); fflush(stderr);
     _exit(0);   // never run static destructors: cpputest touches destroyed allocators there (outside every property)
 }
